@@ -162,6 +162,28 @@ func OneOfAllSpecs() []*Spec {
 	out = append(out, &Spec{Kind: KOneOfStr, Discriminator: "_type", Members: []Member{
 		{KeyS: "a", KeyI: 1, Type: MapObjTyped("Typed")}, {KeyS: "b", KeyI: 2, Type: MapObjB("B")},
 	}})
+	// inlined discriminators whose property in the member objects is an enum (plain, typed, integer) rather than a
+	// bare string / int: what the member unserializes the field to is then not the key type itself
+	for _, dt := range []*Spec{
+		{Kind: KStrEnum, EnumS: []string{"a", "b"}},
+		{Kind: KTypedEnum, EnumS: []string{"a", "b"}},
+	} {
+		a, b := MapObjA("A"), MapObjB("B")
+		a.Props = append(a.Props, Prop{Name: "_type", Type: dt.Clone()})
+		b.Props = append(b.Props, Prop{Name: "_type", Type: dt.Clone()})
+		out = append(out, &Spec{Kind: KOneOfStr, Discriminator: "_type", Inlined: true, Members: []Member{
+			{KeyS: "a", KeyI: 1, Type: a}, {KeyS: "b", KeyI: 2, Type: b},
+		}})
+	}
+	{
+		a, b := MapObjA("A"), MapObjB("B")
+		dt := &Spec{Kind: KIntEnum, EnumI: []int64{1, 2}}
+		a.Props = append(a.Props, Prop{Name: "_type", Type: dt.Clone()})
+		b.Props = append(b.Props, Prop{Name: "_type", Type: dt.Clone()})
+		out = append(out, &Spec{Kind: KOneOfInt, Discriminator: "_type", Inlined: true, Members: []Member{
+			{KeyS: "a", KeyI: 1, Type: a}, {KeyS: "b", KeyI: 2, Type: b},
+		}})
+	}
 	// a member under the zero value of the key type (0 / the empty string): present, not missing
 	for _, k := range []Kind{KOneOfStr, KOneOfInt} {
 		for _, inl := range []bool{false, true} {
